@@ -34,6 +34,9 @@ open_("C07", "D67", "C07/attribution-invented-after-journal-loss", [],
 open_("C01", "D17", "C01/missing-from-note@f.txt:4", ["C01/lost@f.txt:4"],
       "history: AI session adds 2 lines to f.txt, commit; a person re-indents the first of them (whitespace only), commit => the re-indented line is absent from the new commit's note and blame reports it human (whitespace-only edit of an AI line that an earlier commit already contains; same when the editor is an AI session or when only the final newline is added)",
       "c01.reindent_committed_ai_line", ["reindent_committed_ai"])
+open_("C01", "D71", "C01/missing-from-note@back\\slash.txt:4", ["C01/missing-from-note@back\\slash.txt:5", "C01/lost@back\\slash.txt:4", "C01/lost@back\\slash.txt:5"],
+      "input: a tracked file named `back\\slash.txt` (a backslash is an ordinary character in a Linux file name) gets two agent lines and is committed => the note does not list them and blame reports them human (paths are normalised as if the backslash were a directory separator)",
+      "c01.file_name_with_backslash", ["name:backslash"])
 open_("C01", "D13", "C01/missing-from-note@f.txt:4", ["C01/lost@f.txt:4"],
       "history: AI session inserts 5 lines at the top of f.txt; before any further checkpoint a person re-indents the 4th and deletes the next two lines; commit => the re-indented AI line is committed as human",
       "c01.reindent_and_delete_next_line", ["reindent_delete_combo"])
@@ -89,8 +92,8 @@ open_("C12", "D15", "C05/base_commit_sha", ["C03/unsound-note@f.txt:6", "C03/uns
       "configuration: notes.rewriteRef=refs/notes/* with notes.rewrite.rebase=true; history: feature commit appends 2 AI lines to f.txt, upstream inserts 2 lines at the top, `git rebase main` => git itself copies the old note verbatim to the rewritten commit and git-ai then skips that commit ('already has a note'): base_commit_sha names the old commit, lines 6-7 (a person's) are listed as AI and the AI lines 8-9 are human",
       "c12.notes_rewrite_ref_copies_note_verbatim", ["setting:rewriteref"], affects=[])
 open_("C13", "D33", "C13/lost@g.txt:2", [],
-      "history: feature = [S1 inserts 2 lines at the top of f.txt; S2 inserts a line into g.txt]; upstream adds another file; `git rebase -i main` with the two picks swapped (no conflict) => in wrapper mode every AI line keeps its session, with git-ai installed as git hooks S2's line g.txt:2 is human",
-      "c13.interactive_rebase_reorder_in_hooks_mode", ["rebase_interactive"], affects=[])
+      "history: feature = [S1 inserts 2 lines at the top of f.txt; S2 inserts a line into g.txt]; upstream adds another file; `git rebase -i main` with the two picks swapped (no conflict; likewise `squash` / `fixup` when the agent lines are in the folded, non-last commit) => in wrapper mode every AI line keeps its session, with git-ai installed as git hooks S2's line g.txt:2 is human",
+      "c13.interactive_rebase_reorder_in_hooks_mode", ["todo_reorder", "todo_squash", "todo_fixup", "todo_edit"], affects=[])
 open_("C06", "D9", "C06/stdout@--html-path status", [],
       "command line: `git --html-path status` (likewise --man-path / --info-path followed by a subcommand) => plain git prints the documentation path and exits 0; through the proxy the query option is dropped and `status` runs (different stdout). The pinned suite asserts the current behaviour (git_cli_arg_parsing::meta_html_path_then_real_command_meta_is_dropped_current_behavior), so the repair is not an unedited-suite-compatible fix",
       "c06.html_path_followed_by_command", ["tmpl:--html-path status"], affects=["C18"])
